@@ -225,7 +225,7 @@ RULES.append(("C17.e", "state-mutation inventory: no new site that changes the c
 
 def rule_mustpass(ctx):
     from . import mustpass
-    mustpass.check(ctx, ['buffer-write-pushes', 'slot-write-stores', 'sink-senders-write'])
+    mustpass.check(ctx, ['buffer-write-pushes', 'slot-write-stores', 'sink-senders-write', 'slot-next-locks', 'buffer-next-pops'])
 
 
 RULES.append(("C17.f", "must-pass-through: no path around the effects this property rests on (added fast paths / early returns)", rule_mustpass))
